@@ -39,7 +39,7 @@ func TestMain(m *testing.M) {
 	for _, k := range []string{"rsa", "p224", "p256", "p384", "p521"} {
 		R.Require("std_client_wrong_key:" + k)
 	}
-	R.Require("pinned_peer_rejects")
+	R.Require("pinned_peer_rejects", "attack:session_cache_eviction", "eviction_then_redirect", "attack:dial_entry_points", "dial:Dial", "dial:DialWithDialer")
 	R.Require("suite:e013", "suite:e053", "skipverify")
 	hx.Main(m, R)
 }
@@ -805,5 +805,189 @@ func TestC08_DeclinedResumptionReverifies(t *testing.T) {
 			}
 			R.Case(true, hx.HashKey("drr", mode, change), "attack:declined_resumption_reverifies")
 		}
+	}
+}
+
+// A client session cache that is FULL: every new session evicts an old one. Two unrelated servers (each with its own
+// ticket keys, so neither can open the other's tickets) hold certificates for different names - "server.test" (also reachable as "SERVER.test") and "other.test". The client
+// connects under changing names, and the connection reaches the right server or - an attacker redirects it - the other
+// one. Whatever the cache holds or has evicted, a handshake completes only when the server reached holds a certificate
+// for the name asked for; a session kept for one name is never offered, let alone accepted, under another.
+func TestC08_SessionCacheEviction(t *testing.T) {
+	p := tlsx.GetPKI()
+	run := 0
+	hx.Check(t, hx.N(40, 500), func(t *rapid.T) {
+		run++
+		mode := rapid.SampledFrom([]string{"gm", "tls"}).Draw(t, "mode")
+		capacity := rapid.IntRange(1, 2).Draw(t, "capacity")
+		cache := gmtls.NewLRUClientSessionCache(capacity)
+		names := []string{"server.test", "other.test", "SERVER.test"}
+		holder := []int{0, 1, 0}
+		steps := rapid.IntRange(3, 7).Draw(t, "steps")
+		var hist []string
+		evictions, redirected := 0, 0
+		seen := map[string]bool{}
+		for k := 0; k < steps; k++ {
+			ni := rapid.IntRange(0, 2).Draw(t, "name")
+			reached := holder[ni]
+			if gen.OneIn(t, "redirect", 3) {
+				reached = 1 - reached
+				redirected++
+			}
+			var cc, sc *gmtls.Config
+			id := fmt.Sprint("evict", run, "-", k)
+			if mode == "gm" {
+				cc, sc = tlsx.GMClient(p, "c"+id), tlsx.GMServer(p, "s"+id)
+				sc.CipherSuites = []uint16{tlsx.GMECCSM4CBCSM3, tlsx.GMECCSM4GCMSM3}
+				if reached == 1 {
+					sc.Certificates = []gmtls.Certificate{p.SrvSignWrongName.TLS, p.SrvEncOther.TLS}
+				}
+			} else {
+				srv := p.RSASrv
+				if reached == 1 {
+					srv = p.RSASrvOther
+				}
+				cc, sc = tlsx.TLSClient(p, "c"+id), tlsx.TLSServer(p, srv, "s"+id)
+				sc.CipherSuites = []uint16{0xc02f, 0xc014}
+			}
+			cc.ServerName = names[ni]
+			cc.ClientSessionCache = cache
+			sc.SetSessionTicketKeys([][32]byte{{7, 7, byte(reached)}})
+			r := tlsx.Run(cc, sc, tlsx.Script{ClientSend: []byte("secret"), ServerSend: []byte("reply"), ServerAddr: "10.9.9.9:443"})
+			valid := reached == holder[ni]
+			hist = append(hist, fmt.Sprintf("ask %q, reach the server holding %q -> client err=%v resumed=%v", names[ni], []string{"server.test", "other.test"}[reached], r.Client.HSErr, r.Client.HSErr == nil && r.Client.State.DidResume))
+			desc := fmt.Sprintf("%s client, LRU session cache of capacity %d, history:\n  %s", mode, capacity, strings.Join(hist, "\n  "))
+			if r.Client.Panic != nil || r.Server.Panic != nil {
+				t.Fatalf("panic\n%s\n%s", desc, r.Describe())
+			}
+			if valid && (r.Client.HSErr != nil || r.Server.HSErr != nil) {
+				t.Fatalf("a server holding a certificate for the requested name was refused\n%s\n%s", desc, r.Describe())
+			}
+			if !valid && r.Client.HSErr == nil {
+				t.Fatalf("the client COMPLETED a handshake (resumed=%v) with a server that holds no certificate for the name it asked for\n%s", r.Client.State.DidResume, desc)
+			}
+			if !valid && len(r.Server.Received) > 0 {
+				t.Fatalf("client data reached a server it must not accept\n%s", desc)
+			}
+			if valid && !seen[names[ni]] && len(seen) >= capacity {
+				evictions++
+			}
+			if valid {
+				seen[names[ni]] = true
+			}
+		}
+		cl := []string{"attack:session_cache_eviction"}
+		if evictions > 0 && redirected > 0 {
+			cl = append(cl, "eviction_then_redirect")
+		}
+		R.Case(true, hx.HashKey("evict", strings.Join(hist, "|")), cl...)
+	})
+}
+
+// Clients that enter through Dial / DialWithDialer over a real loopback socket: with Config.ServerName empty the name
+// to verify is taken from the address, and the handshake runs under a copy of the caller's configuration. That copy must
+// verify exactly like the original: the server's certificates (valid for 127.0.0.1) are accepted at the configured time
+// under the configured roots, and refused when the configured time lies outside their validity or the roots are others.
+// The wall clock of the machine plays no part: the configuration says what time it is.
+func TestC08_DialEntryPoints(t *testing.T) {
+	p := tlsx.GetPKI()
+	for _, mode := range []string{"gm", "tls"} {
+		var sc *gmtls.Config
+		if mode == "gm" {
+			sc = tlsx.GMServer(p, "dial-s")
+			sc.Certificates = []gmtls.Certificate{p.LoopSign.TLS, p.LoopEnc.TLS}
+		} else {
+			sc = tlsx.TLSServer(p, p.LoopRSA, "dial-s")
+		}
+		ln, err := gmtls.Listen("tcp", "127.0.0.1:0", sc)
+		if err != nil {
+			t.Skipf("no loopback listener available: %v", err)
+		}
+		go func() {
+			for {
+				c, err := ln.Accept()
+				if err != nil {
+					return
+				}
+				go func() {
+					defer c.Close()
+					if c.(*gmtls.Conn).Handshake() == nil {
+						c.Write([]byte("hello"))
+					}
+				}()
+			}
+		}()
+		addr := ln.Addr().String()
+		y := 365 * 24 * time.Hour
+		n := 0
+		for _, when := range []string{"now", "after_expiry", "before_validity"} {
+			for _, roots := range []string{"right", "other"} {
+				for _, entry := range []string{"Dial", "Dial+ServerName", "DialWithDialer", "Client(conn)"} {
+					n++
+					var cc *gmtls.Config
+					if mode == "gm" {
+						cc = tlsx.GMClient(p, fmt.Sprint("dial-c", n))
+						if roots == "other" {
+							cc.RootCAs = p.RootsStd
+						}
+					} else {
+						cc = tlsx.TLSClient(p, fmt.Sprint("dial-c", n))
+						if roots == "other" {
+							cc.RootCAs = p.RootsSM2
+						}
+					}
+					cc.ServerName = ""
+					switch when {
+					case "after_expiry":
+						cc.Time = func() time.Time { return tlsx.Now.Add(2 * y) }
+					case "before_validity":
+						cc.Time = func() time.Time { return tlsx.Now.Add(-2 * y) }
+					}
+					var conn *gmtls.Conn
+					var derr error
+					pn, hung := hx.TryBounded(30*time.Second, func() {
+						switch entry {
+						case "Dial":
+							conn, derr = gmtls.Dial("tcp", addr, cc)
+						case "Dial+ServerName":
+							cc.ServerName = "127.0.0.1"
+							conn, derr = gmtls.Dial("tcp", addr, cc)
+						case "DialWithDialer":
+							conn, derr = gmtls.DialWithDialer(&net.Dialer{Timeout: 25 * time.Second}, "tcp", addr, cc)
+						default:
+							raw, err := net.Dial("tcp", addr)
+							if err != nil {
+								derr = err
+								return
+							}
+							cc.ServerName = "127.0.0.1"
+							conn = gmtls.Client(raw, cc)
+							if derr = conn.Handshake(); derr != nil {
+								raw.Close()
+							}
+						}
+					})
+					desc := fmt.Sprintf("%s client entering through %s, configured time %s, roots %s", mode, entry, when, roots)
+					if hung {
+						hx.Hang(R, "TestC08_DialEntryPoints", desc+": did not return within 30s")
+					}
+					if pn != nil {
+						t.Fatalf("%s panicked: %v\n%s", desc, pn.Val, pn.Stack)
+					}
+					if derr == nil && conn != nil {
+						conn.Close()
+					}
+					want := when == "now" && roots == "right"
+					if want && derr != nil {
+						t.Fatalf("%s: REFUSED a server whose certificates are valid at the configured time under the configured roots: %v", desc, derr)
+					}
+					if !want && derr == nil {
+						t.Fatalf("%s: COMPLETED a handshake although the server's certificates are not valid for this configuration", desc)
+					}
+					R.Case(true, hx.HashKey("dial", mode, when, roots, entry), "attack:dial_entry_points", "dial:"+entry)
+				}
+			}
+		}
+		ln.Close()
 	}
 }
